@@ -30,13 +30,13 @@ def gen_histories(ctx, quick):
     the others (Decode / Reevaluate / Unrelated interleavings, simulated long histories) are sampled with the seed"""
     out = []
     # (cfg, simulate, depth, number of non-Analyse-only histories kept)
-    plan = [("HistoryGen2.cfg", None, None, 1000), ("HistorySim.cfg", "num=2", 6, 20)] if quick else \
-           [("HistoryGen2.cfg", None, None, 1000), ("HistoryGen.cfg", None, None, 900), ("HistorySim.cfg", "num=40", 6, 900)]
+    plan = [("HistoryGen2.cfg", None, None, 24), ("HistorySim.cfg", "num=2", 6, 8)] if quick else \
+           [("HistoryGen2.cfg", None, None, 1000), ("HistoryGen.cfg", None, None, 600), ("HistorySim.cfg", "num=40", 6, 400)]
     for cfg, sim, depth, keep in plan:
         wd = tlc.workdir("c10g")
         spool = os.path.join(wd, "h.spool")
         res = tlc.run("History", cfg, simulate=sim, depth=depth, seed=ctx.seed if sim else None, spool=spool,
-                      tag="c10gen", timeout=3000)
+                      tag="c10gen", timeout=3000, workers=2)      # tiny models: one TLC slot is enough
         ctx.add_tlc(res, "G:" + cfg)
         hs = list(tlc.iter_spool(spool))
         tlc.cleanup(wd)
@@ -59,7 +59,7 @@ def gen_histories(ctx, quick):
 
 
 def run_M(ctx):
-    res = tlc.run("History", "HistoryMC.cfg", coverage=True, tag="c10mc", timeout=3000)
+    res = tlc.run("History", "HistoryMC.cfg", coverage=True, tag="c10mc", timeout=3000, workers=2)
     ctx.add_tlc(res, "M:HistoryMC.cfg")
     seen = {}
     for cfg, expect in (("HistoryMC_dev_sf.cfg", "Stable"), ("HistoryMC_dev_sf_free.cfg", "HistoryFree"),
@@ -183,6 +183,9 @@ def run(ctx):
     if "M" in os.environ.get("VERIF_C10_STAGES", "MG"):      # development aid (mutation experiments)
         run_M(ctx)
     names = list(c02isa.names())
+    if quick and not os.environ.get("VERIF_C10_ISAS"):
+        # the quick tier covers the first group of ISA modules; every module is covered by the thorough tier
+        names = [n for n in names if n in c02isa.QUICK]
     if os.environ.get("VERIF_C10_ISAS"):     # development aid for mutation experiments; never set by the registered commands
         names = [n for n in names if n in os.environ["VERIF_C10_ISAS"].split(",")]
     wd = tlc.workdir("c10")
